@@ -21,9 +21,10 @@ CONFIGS = {
     # name: (cargo args, expected crates, floor of bodies in the library)
     'dev': ([], ['kyrodb_engine', 'kyrodb_server', 'kyrodb_backup', 'kyrodb_load_tester'], 2400),
     'release': (['--release'], ['kyrodb_engine', 'kyrodb_server', 'kyrodb_backup', 'kyrodb_load_tester'], 2400),
-    'features': (['--features', 'cli-tools,ffi-bench', '--bin', 'validation_24h', '--bin', 'validation_enterprise'],
-                 ['kyrodb_engine', 'kyrodb_server', 'kyrodb_backup', 'kyrodb_load_tester',
-                  'validation_24h', 'validation_enterprise'], 2400),
+    # validation_24h (cli-tools) does not compile at the pinned commit (a method pasted into a function body: E0425 / `self` outside an
+    # associated function), so it cannot be part of any configuration; it contains no library code.
+    'features': (['--features', 'cli-tools,ffi-bench', '--bin', 'validation_enterprise'],
+                 ['kyrodb_engine', 'kyrodb_server', 'kyrodb_backup', 'kyrodb_load_tester', 'validation_enterprise'], 2400),
 }
 
 
